@@ -167,6 +167,29 @@ var C19GoodPhantomNets = []string{
 	"192.168.10.0/24", "35.8.0.0/17", "2001:1::/64",
 }
 
+// C19Overlap is a pair of well-formed entries whose ranges overlap: Narrow lies inside Wide.
+type C19Overlap struct {
+	Label        string
+	Narrow, Wide string
+}
+
+// C19CovertOverlaps / C19PhantomOverlaps: same base address with different prefix lengths (incl. a base
+// written with host bits, as the shipped file does), nested ranges with different bases, IPv6.  Every
+// pair is generated in both orders, and each entry also doubled.
+var C19CovertOverlaps = []C19Overlap{
+	{"same-base-v4", "192.168.0.0/24", "192.168.0.0/16"},
+	{"same-base-hostbits", "127.0.0.1/32", "127.0.0.1/8"},
+	{"same-base-v6", "2001:db8::/48", "2001:db8::/32"},
+	{"nested-v4", "10.20.0.0/16", "10.0.0.0/8"},
+	{"nested-v6", "fd12:3456::/32", "fc00::/7"},
+}
+var C19PhantomOverlaps = []C19Overlap{
+	{"same-base-v4", "192.122.190.0/28", "192.122.190.0/24"},
+	{"same-base-v6", "2001:48a8:687f:1::/96", "2001:48a8:687f:1::/64"},
+	{"nested-v4", "141.219.5.0/24", "141.219.0.0/16"},
+	{"nested-v6", "2001:1::8000:0/100", "2001:1::/64"},
+}
+
 // C19BadEntry is a list entry that net.ParseCIDR-style strict parsing refuses.
 type C19BadEntry struct {
 	S     string
@@ -267,11 +290,20 @@ func c19BoolKey(name string, base string) C19Key {
 	return c19ScalarKey(name, base, c19V("true", `true`), c19Z(`false`), c19Bad("type-string", `"yes"`))
 }
 
-func c19NetListKey(name string, good []string, base string) C19Key {
+func c19NetListKey(name string, good []string, overlaps []C19Overlap, base string) C19Key {
 	k := C19Key{Name: name}
 	k.States = append(k.States, C19State{Label: "unset", Kind: "unset"}, c19Z(`[]`))
 	// a few fixed valid lists and (when rng != nil) one drawn list
 	k.States = append(k.States, c19V("one", c19List(good[0])), c19V("three", c19List(good[1], good[2], good[len(good)-1])), c19V("all", c19List(good...)))
+	// overlapping well-formed entries, both orders, an unrelated entry in between or not, duplicates
+	for i, o := range overlaps {
+		other := good[(3+i)%len(good)]
+		k.States = append(k.States,
+			c19V("overlap:"+o.Label+":narrow-wide", c19List(o.Narrow, o.Wide)),
+			c19V("overlap:"+o.Label+":wide-narrow", c19List(o.Wide, o.Narrow)),
+			c19V("overlap:"+o.Label+":narrow-x-wide", c19List(o.Narrow, other, o.Wide)),
+			c19V("overlap:"+o.Label+":dup", c19List(o.Wide, o.Wide, o.Narrow, o.Narrow)))
+	}
 	for _, be := range C19BadEntries {
 		// the offending entry sits between well-formed ones
 		k.States = append(k.States, c19Ent(be.Class+":"+strings.TrimSpace(be.S), c19List(good[1], be.S, good[2])))
@@ -313,20 +345,34 @@ func C19Keys(garbageDB string, rng *rand.Rand) []C19Key {
 	}
 	for i, k := range keys {
 		var good []string
+		var overlaps []C19Overlap
 		switch k.Name {
 		case "covert_blocklist_subnets", "covert_allowlist_subnets":
-			good = C19GoodCovertNets
+			good, overlaps = C19GoodCovertNets, C19CovertOverlaps
 		case "phantom_blocklist":
-			good = C19GoodPhantomNets
+			good, overlaps = C19GoodPhantomNets, C19PhantomOverlaps
 		default:
 			continue
 		}
-		n := 1 + rng.Intn(4)
+		// one drawn list: pool entries and both halves of overlap pairs in random order (so narrower
+		// and wider ranges meet in either order, with or without other entries between them)
+		n := 1 + rng.Intn(5)
 		var items []string
 		for j := 0; j < n; j++ {
-			items = append(items, good[rng.Intn(len(good))])
+			switch rng.Intn(3) {
+			case 0:
+				o := overlaps[rng.Intn(len(overlaps))]
+				if rng.Intn(2) == 0 {
+					items = append(items, o.Narrow, o.Wide)
+				} else {
+					items = append(items, o.Wide, o.Narrow)
+				}
+			default:
+				items = append(items, good[rng.Intn(len(good))])
+			}
 		}
-		// one drawn list, appended last so that the fixed states keep their positions
+		rng.Shuffle(len(items), func(a, b int) { items[a], items[b] = items[b], items[a] })
+		// appended last so that the fixed states keep their positions
 		st := append([]C19State(nil), k.States...)
 		keys[i].States = append(st, c19V("drawn", c19List(items...)))
 	}
@@ -355,11 +401,11 @@ func c19KeysBuild(garbageDB string) []C19Key {
 		c19ScalarKey("ingest_worker_count", "valid:100", c19V("1", `1`), c19V("9", `9`), c19V("10", `10`), c19V("100", `100`), c19V("2000", `2000`), c19V("-3", `-3`), c19V("-100", `-100`), c19Z(`0`), c19Bad("type-string", `"many"`)),
 		c19BoolKey("enable_share_over_api", "zero"),
 		c19ScalarKey("preshare_endpoint", "zero", c19Z(`""`), c19V("url", `"http://127.0.0.1:1/register"`)),
-		c19NetListKey("covert_blocklist_subnets", C19GoodCovertNets, "valid:all"),
+		c19NetListKey("covert_blocklist_subnets", C19GoodCovertNets, C19CovertOverlaps, "valid:all"),
 		c19BoolKey("covert_blocklist_public_addrs", "zero"),
-		c19NetListKey("covert_allowlist_subnets", C19GoodCovertNets, "zero"),
+		c19NetListKey("covert_allowlist_subnets", C19GoodCovertNets, C19CovertOverlaps, "zero"),
 		c19DomainKey("valid:localhost"),
-		c19NetListKey("phantom_blocklist", C19GoodPhantomNets, "valid:one"),
+		c19NetListKey("phantom_blocklist", C19GoodPhantomNets, C19PhantomOverlaps, "valid:one"),
 		c19ScalarKey("detector_filter_list", "valid:shipped", c19V("shipped", `["127.0.0.1", "::1"]`), c19Z(`[]`)),
 		c19ScalarKey("geoip_cc_db_path", "zero", c19Z(`""`), c19Bad("missing", `"/nonexistent/GeoLite2-Country.mmdb"`), c19Bad("not-a-db", C19Q(garbageDB))),
 		c19ScalarKey("geoip_asn_db_path", "zero", c19Z(`""`), c19Bad("missing", `"/nonexistent/GeoLite2-ASN.mmdb"`), c19Bad("not-a-db", C19Q(garbageDB))),
@@ -503,10 +549,35 @@ func c19Pick(k C19Key, rng *rand.Rand, pBad float64) int {
 	}
 	c := byKind[kind]
 	if len(c) == 0 {
+		kind = "valid"
 		c = byKind["valid"]
 	}
 	if len(c) == 0 {
 		return 0
+	}
+	if kind == "valid" {
+		// the subnet lists have many overlap states: keep the three groups balanced
+		var fixed, overlap, drawn []int
+		for _, i := range c {
+			switch l := k.States[i].Label; {
+			case strings.HasPrefix(l, "valid:overlap:"):
+				overlap = append(overlap, i)
+			case l == "valid:drawn":
+				drawn = append(drawn, i)
+			default:
+				fixed = append(fixed, i)
+			}
+		}
+		if len(overlap) > 0 {
+			switch x := rng.Float64(); {
+			case x < 0.40 && len(drawn) > 0:
+				c = drawn
+			case x < 0.70:
+				c = overlap
+			default:
+				c = fixed
+			}
+		}
 	}
 	return c[rng.Intn(len(c))]
 }
